@@ -816,6 +816,15 @@ def sem_ok(term) -> bool:
             return False      # which object such a decorator evaluates to depends on values
         if n[0] == "call" and n[1][0] not in ("name", "attr", "call", "sub"):
             return False      # which object such a callee evaluates to depends on values
+        if n[0] == "call" and n[1][0] == "name" and n[1][1] in HO and any(
+                a[0] in ("bool", "ifexp", "named", "star") for a in list(n[2]) + [v for _, v in n[3]]):
+            return False      # which object reaches the higher-order builtin depends on values
+        if n[0] in ("fstr", "fmt") and any(m and m[0] == "lambda" for m in T.walk(n)):
+            return False      # the text of a formatted lambda contains an address
+        if n[0] == "for" and n[2][0] == "fstr":
+            return False      # iterating over the characters of a formatted string: more than two items
+        if n[0] in ("comp", "dictcomp") and any(it[0] == "fstr" for _, it, _ in n[-1]):
+            return False
         if n[0] in ("tsub", "tattr") and n[1][0] not in ("name", "attr", "call", "sub"):
             return False      # which object such a receiver evaluates to depends on values
         if n[0] == "def" and n[1] == "class" and any(m and m[0] == "named" for m in T.walk(n[5])):
@@ -859,7 +868,10 @@ def model_draws(t, lpy) -> int:
     if k == "slice":
         return sum(D(x) for x in t[1:4] if x is not None)
     if k == "call":
-        return D(t[1]) + sum(D(a) for a in t[2]) + sum(D(v) for _, v in t[3])
+        ho = 0
+        if t[1][0] == "name" and t[1][1] in HO:
+            ho = sum(1 for a in t[2] if a[0] == "name") + sum(1 for _, v in t[3] if v[0] == "name")
+        return D(t[1]) + sum(D(a) for a in t[2]) + sum(D(v) for _, v in t[3]) + ho
     if k in ("comp", "dictcomp"):
         inner = D(t[2]) if k == "comp" else D(t[1]) + D(t[2])
         for _, it, ifs in reversed(t[-1]):
@@ -913,6 +925,8 @@ def check_semantics(run, mods, wd, rnd, cov):
         for h in (INTERESTING[::4] if run.tier == "quick" else INTERESTING):
             terms.append(("expr", c(h)))
     n_exh = len(terms)
+    # CPython does not change with the repository: the random part is a fixed corpus (seed-independent)
+    rnd = random.Random(16016)
     for _ in range(300 if run.tier == "quick" else 6000):
         terms.append(rand_stmt(rnd, rnd.choice([1, 1, 2])))
     items, pys = [], []
